@@ -129,10 +129,16 @@ def ob_query(kinds: List[int], codes: List[int], absolute: bool, depth2: int) ->
         expect.append(rest)
     q = Query(segs, absolute=absolute)
     before = [s.encode() for s in segs]
+    rsn = part("rsn", "")
+    if rsn is None:
+        # None = every resource segment, whatever its name
+        expect = [([name(c, i) for i, c in enumerate(codes)] if k in (1, 2, 3) else None) for k in kinds]
+    elif rsn == "other":
+        expect = [([name(c, i) for i, c in enumerate(codes)] if k == 2 else None) for k in kinds]
     rejected = any(r is not None and model(path, r) is None for r in expect)
     try:
         with quiet():
-            r = q.to_absolute(dirtext)
+            r = q.to_absolute(dirtext) if rsn == "" else q.to_absolute(dirtext, resource_segment_name=rsn)
     except Exception:
         return check(rejected)
     if rejected:
@@ -149,13 +155,17 @@ def ob_query(kinds: List[int], codes: List[int], absolute: bool, depth2: int) ->
     ok = ok and [s.encode() for s in segs] == before
     # idempotence: resolving the resolved query again (against any directory) changes nothing
     dir2 = "/".join("e%d" % i for i in range(depth2))
-    r2 = r.to_absolute(dir2)
+    r2 = r.to_absolute(dir2) if rsn == "" else r.to_absolute(dir2, resource_segment_name=rsn)
     ok = ok and r2.encode() == r.encode() and r2.absolute == r.absolute
     return check(ok)
 
 
 def _query_obs(depths, maxlen, maxd2, timeout):
     obs = []
+    for d in depths[:1]:
+        for rsn in (None, "other"):
+            obs.append(Ob("ob_query", dict(depth=d, nseg=2, k0=None, maxlen=min(maxlen, 2), maxd2=0, rsn=rsn), timeout=timeout, per_path=20,
+                          bounds="dir depth=%d, 2 segments x 4 kinds, 1..2 components, resource_segment_name=%r (None = all resources)" % (d, rsn)))
     for d in depths:
         for nseg in (1, 2, 3):
             for k0 in ([None] if nseg < 3 else [0, 1, 2, 3]):
